@@ -209,7 +209,7 @@ def conform(ctx, trace_path, name="conf"):
                       constants=dict(MaxN=64, MaxTrig=8, MaxMin=64, MaxMax=64, MaxFid=1000000, SnapLen=20, Legacy=False)),
                 workers=1, files=[(trace_path, "trace.ndjson")], timeout=1800, heap="4g")
     import re
-    m = re.search(r'"REJECTED-AT", (\d+)', r["out"])
+    m = re.search(r'"REJECTED-AT",\s*(\d+)', r["out"])
     return (int(m.group(1)) if m else None), r.get("distinct", 0) - 1
 
 
